@@ -255,6 +255,8 @@ def _terms(max_leaves=12):
 
 def _callable():
     return st.one_of(st.sampled_from(["a", "b", "p", "q", "'A b'"]).map(lambda a: ["atom", a]),
+                     st.sampled_from(["a", "b", "p", "q", "'A b'"]).map(lambda a: ["atom", a]),
+                     st.just(["bin", ":", ["atom", "m"], ["atom", "a"]]),
                      st.tuples(st.sampled_from(_FUNCTORS), st.lists(_terms(4), min_size=1, max_size=2)).map(
                          lambda t: ["cmp", t[0], t[1]]))
 
@@ -501,36 +503,78 @@ def _subterms(a):
     return out
 
 
-def _shape(a):
-    """Root-cause key of a minimal failing AST: node kind (+ operator type) and the kinds of its children."""
-    def kind(x):
-        k = x[0]
-        if k == "bin":
-            return "bin(%s)" % BIN[x[1]][1]
-        if k == "un":
-            return "un(%s)" % x[1]
-        if k in ("int", "float"):
-            return "neg-number" if float(x[1]) < 0 else "number"
-        if k == "atom":
-            return "atom" if x[1][:1].isalpha() or x[1][:1] == "'" else "atom(%s)" % x[1]
-        if k == "prob":
-            return "prob[%s]" % kind(x[2])
-        return k
-    kids = []
-    if a[0] == "cmp":
-        kids = sorted(set(kind(x) for x in a[2]))
-    elif a[0] == "list":
-        kids = sorted(set(kind(x) for x in a[1])) + (["|" + kind(a[2])] if a[2] is not None else [])
-    elif a[0] == "ad":
-        kids = sorted(set(kind(x) for x in a[1])) + ([":-" + kind(a[2])] if a[2] is not None else [])
-    elif a[0] == "prob":
-        kids = [kind(a[1])]
+def node_class(x, as_child=True):
+    """Syntactic class of an AST node (used for root-cause signatures and known-finding classes)."""
+    k = x[0]
+    if k in ("int", "float"):
+        return "neg-number" if (float(x[1]) < 0 or str(x[1]).startswith("-")) else "number"
+    if k == "un":
+        if x[1] == "-" and x[2][0] in ("int", "float"):
+            return node_class([x[2][0], -x[2][1]])  # folded into a constant by the factory
+        return "prefix"
+    if k == "bin":
+        return "infix-hi" if BIN[x[1]][0] >= 1000 else "infix"
+    if k == "cmp":
+        return "call"
+    return k
+
+
+def _children_slots(a):
+    """[(path setter, child)] for the direct sub-ASTs of a node."""
+    out = []
+    for i, x in enumerate(a):
+        if i == 0 or not isinstance(x, list):
+            continue
+        if x and isinstance(x[0], str) and x[0] in _KINDS:
+            out.append(((i, None), x))
+        else:
+            for j, y in enumerate(x):
+                if isinstance(y, list) and y and y[0] in _KINDS:
+                    out.append(((i, j), y))
+    return out
+
+
+def _replace(a, slot, new):
+    b = list(a)
+    i, j = slot
+    if j is None:
+        b[i] = new
     else:
-        kids = [kind(x) for x in _subterms(a)]
-    head = kind(a)
-    if a[0] == "bin":
-        head = "bin(%s,%s)" % (BIN[a[1]][1], BIN[a[1]][0])
-    return "%s<%s>" % (head, ",".join(kids))
+        b[i] = list(b[i])
+        b[i][j] = new
+    return b
+
+
+def root_cause_sig(m):
+    """Signature of a minimal failing AST: class of the node / class of the child whose replacement by a plain atom
+    repairs the round trip (the offending child)."""
+    parent = node_class(m)
+    if m[0] == "bin":
+        parent = "infix-hi" if BIN[m[1]][0] >= 1000 else "infix"
+    offending = None
+    for slot, child in _children_slots(m):
+        if child[0] in ("atom", "var"):
+            continue
+        try:
+            if roundtrip(build(_replace(m, slot, ["atom", "z"]))) is None:
+                offending = child
+                break
+        except Exception:  # noqa
+            continue
+    if offending is None:
+        # no single child is responsible: name the first child of the most suspicious class
+        kids = [c for _, c in _children_slots(m)]
+        for cls in ("or", "not", "infix-hi", "prob", "clause", "and", "prefix", "neg-number", "list", "infix"):
+            hit = [c for c in kids if node_class(c) == cls]
+            if hit:
+                offending = hit[0]
+                break
+    if offending is None:
+        return "rt:%s/?" % parent
+    cc = node_class(offending)
+    if m[0] == "bin" and offending[0] == "bin" and BIN[m[1]][0] == BIN[offending[1]][0]:
+        cc = "infix-same-priority"
+    return "rt:%s/%s" % (parent, cc)
 
 
 def _minimal_failing(a, budget):
@@ -570,12 +614,20 @@ def check_roundtrip(case):
                 "crash", "parsing %r raised %r" % (explicit(ast, top=True), exc), sig=plrun.exc_signature(exc)))
         t0 = None
         in_image = False
-    if not in_image:
-        return Outcome(features=sorted(feats), classes=["outside-parser-image"],
-                       sample={"explicit": explicit(ast, top=True), "constructed": str(t),
-                               "parsed": None if t0 is None else str(t0)})
-    for which, term in (("constructed", t), ("parsed", t0)):
+    if t0 is None:
+        return Outcome(features=sorted(feats), classes=["explicit-text-rejected"],
+                       sample={"explicit": explicit(ast, top=True), "constructed": str(t)})
+    todo = [("parsed", t0)]
+    if in_image:
+        todo.append(("constructed", t))
+    for which, term in todo:
         r = roundtrip(term)
+        if r is not None and not in_image:
+            # the parser built something else than the factory conventions predict (e.g. a different functor): the
+            # parsed term is still a term built from supported syntax, so it is judged, under its own signature
+            return Outcome(nontrivial=nops >= 2, features=sorted(feats), classes=["roundtrip-failed"], failure=Failure(
+                r[0], "term parsed from %r (printed %r; the constructors give %r): %s" % (
+                    explicit(ast, top=True), str(t0), str(t), r[1]), sig=r[2] or "rt-parsed-only:%s" % _image_mismatch_op(ast)))
         if r is not None:
             m = _minimal_failing(ast, [40])
             rm = None
@@ -585,12 +637,33 @@ def check_roundtrip(case):
                 pass
             if rm is None:
                 m, rm = ast, r
-            sig = rm[2] if rm[2] else "%s:%s" % (rm[0], _shape(m))
+            sig = rm[2] if rm[2] else root_cause_sig(m)
             return Outcome(nontrivial=nops >= 2, features=sorted(feats), classes=["roundtrip-failed"], failure=Failure(
                 rm[0], "%s term %s: %s || minimal failing sub-term %s: %s" % (
                     which, explicit(ast, top=True), r[1], explicit(m, top=True), rm[1]), sig=sig))
-    return Outcome(nontrivial=nops >= 2, features=sorted(feats), classes=["roundtrip-ok"],
-                   sample={"text": str(t), "ast_depth": d})
+    return Outcome(nontrivial=nops >= 2, features=sorted(feats),
+                   classes=["roundtrip-ok" if in_image else "roundtrip-ok-outside-parser-image"],
+                   sample={"text": str(t0), "ast_depth": d})
+
+
+def _image_mismatch_op(a, budget=None):
+    """Operator (or node kind) of a minimal sub-AST whose explicit text the parser turns into another term than the
+    factory conventions predict."""
+    budget = budget or [60]
+    for sub in _subterms(a):
+        if budget[0] <= 0:
+            break
+        if sub[0] in ("atom", "var", "str", "int", "float"):
+            continue
+        budget[0] -= 1
+        try:
+            t0 = _parse_one(explicit(sub, top=True))
+            same = t0 == build(sub)
+        except Exception:  # noqa
+            continue
+        if not same:
+            return _image_mismatch_op(sub, budget)
+    return a[1] if a[0] in ("bin", "un", "not") else a[0]
 
 
 def _node_kinds(a):
